@@ -37,7 +37,7 @@ class Gen:
                  total_sort_p=0.5, pref_engines=None, leaf_payloads=("simrows", "seq", "map"),
                  bounds=("exact",), special_leaf_p=0.0, named_mat=True, max_rows=5, itonly_p=0.0,
                  allow_pending_binary=0.05, hidden_p=0.0, zero_col_p=0.08, adjacent_p=0.0, ill_flags_p=0.5,
-                 nonkey_join_p=0.0):
+                 nonkey_join_p=0.0, pipeline_p=0.0):
         self.rng = rng
         self.engines = engines
         self.weights = weights
@@ -58,6 +58,7 @@ class Gen:
         self.zero_col_p = zero_col_p
         self.adjacent_p = adjacent_p
         self.nonkey_join_p = nonkey_join_p
+        self.pipeline = rng.random() < pipeline_p      # one deep pipeline: unary operations keep extending the last entry
         self.ill_flags_p = ill_flags_p
         self.force_last = False
         self.last_kind = None
@@ -169,7 +170,7 @@ class Gen:
         cand = [i for i in range(n) if pred is None or pred(self.pool[i])]
         if not cand:
             return None
-        if self.force_last:
+        if self.force_last or (self.pipeline and r.random() < 0.85):
             return cand[-1]
         if r.random() < 0.55:
             return cand[-1]
